@@ -201,6 +201,9 @@ func replayStore(args []string) error {
 				})
 				if outcome == "ok" {
 					idx = got
+					// the handle is used before anything else happens to it: one query and the schema
+					vx.Exec(idx, dict.ToQuery(vx.Query{E: &vx.Expr{Op: "eq", Col: 1, Val: 1}}))
+					vx.Safely(func() { idx.GetSchema() })
 				}
 			case "close":
 				outcome, oerr = watchdog(15*time.Second, func() error { return idx.Close() })
